@@ -839,3 +839,182 @@ def model_value(m, t, default=0):
         a = v.approx(20)
         return fractions.Fraction(a.numerator_as_long(), a.denominator_as_long())
     return default
+
+
+# --------------------------------------------------------------------------- strings
+
+_SSTR_COUNTER = [0]
+
+
+class SStr(str):
+    """
+    Bounded symbolic string (z3 String, printable ASCII, length <= L).  Subclasses str so
+    that isinstance(v, str) and **{name: v} behave as for real strings; the concrete
+    content of the str object is a unique placeholder and must never be interpreted.
+    Comparisons return SB (forking on bool()).
+    """
+
+    def __new__(cls, z, L):
+        _SSTR_COUNTER[0] += 1
+        o = str.__new__(cls, f"§sym{_SSTR_COUNTER[0]}§")
+        o.z = z
+        o.L = L
+        return o
+
+    @staticmethod
+    def var(name, L):
+        return SStr(z3.String(name), L)
+
+    def constraints(self):
+        """well-formedness of a *variable*: length bound, printable ASCII."""
+        c = [z3.Length(self.z) <= self.L]
+        for i in range(self.L):
+            ch = z3.StrToCode(z3.SubString(self.z, i, 1))
+            c.append(z3.Or(z3.Length(self.z) <= i, z3.And(ch >= 32, ch <= 126)))
+        return c
+
+    @staticmethod
+    def lift(x):
+        if isinstance(x, SStr):
+            return x.z
+        if isinstance(x, str):
+            return z3.StringVal(x)
+        raise TypeError(type(x))
+
+    # -- comparisons
+    def __eq__(self, o):
+        if isinstance(o, str):
+            return SB(self.z == SStr.lift(o))
+        return False
+
+    def __ne__(self, o):
+        if isinstance(o, str):
+            return SB(self.z != SStr.lift(o))
+        return True
+
+    def __hash__(self):
+        return id(self)
+
+    def __contains__(self, sub):
+        return bool(SB(z3.Contains(self.z, SStr.lift(sub))))
+
+    def startswith(self, p):
+        return SB(z3.PrefixOf(SStr.lift(p), self.z))
+
+    def endswith(self, p):
+        return SB(z3.SuffixOf(SStr.lift(p), self.z))
+
+    def __bool__(self):
+        return bool(SB(z3.Length(self.z) > 0))
+
+    def __len__(self):
+        return engine().choose(z3.Length(self.z), range(0, self.L + 1))
+
+    # -- per-character maps (bounded length)
+    def _map(self, fn, grow=1):
+        parts = []
+        for i in range(self.L):
+            sub = z3.SubString(self.z, i, 1)
+            parts.append(fn(sub, z3.StrToCode(sub)))
+        z = z3.Concat(*parts) if len(parts) > 1 else (parts[0] if parts else
+                                                      z3.StringVal(""))
+        return SStr(z, self.L * grow)
+
+    def lower(self):
+        return self._map(lambda s, c: z3.If(z3.And(c >= 65, c <= 90),
+                                            z3.StrFromCode(c + 32), s))
+
+    def upper(self):
+        return self._map(lambda s, c: z3.If(z3.And(c >= 97, c <= 122),
+                                            z3.StrFromCode(c - 32), s))
+
+    def replace(self, a, b, count=-1):
+        if isinstance(a, SStr) or isinstance(b, SStr) or len(a) != 1 or count != -1:
+            raise TypeError("symbolic replace supports a concrete single character only")
+        return self._map(lambda s, c: z3.If(s == z3.StringVal(a), z3.StringVal(b), s),
+                         grow=max(1, len(b)))
+
+    def strip(self, *a):
+        raise TypeError("symbolic strip not supported")
+
+    def split(self, sep=None, maxsplit=-1):
+        if sep is None or isinstance(sep, SStr) or maxsplit != 1:
+            raise TypeError("symbolic split supports split(sep, 1) only")
+        if not (sep in self):
+            return [self]
+        i = z3.IndexOf(self.z, z3.StringVal(sep), 0)
+        n = z3.Length(self.z)
+        return [SStr(z3.SubString(self.z, 0, i), self.L),
+                SStr(z3.SubString(self.z, i + len(sep), n - i - len(sep)), self.L)]
+
+    def __getitem__(self, k):
+        if isinstance(k, slice):
+            if k.step not in (None, 1):
+                raise TypeError("symbolic slice step")
+            start = k.start or 0
+            if start < 0 or (k.stop is not None and k.stop < 0):
+                raise TypeError("negative symbolic slice")
+            n = z3.Length(self.z)
+            if k.stop is None:
+                return SStr(z3.SubString(self.z, start, n), self.L)
+            if k.stop >= self.L and start == 0:
+                return self
+            return SStr(z3.SubString(self.z, start, k.stop - start), min(self.L, k.stop))
+        if k < 0:
+            raise TypeError("negative symbolic index")
+        if not bool(SB(z3.Length(self.z) > k)):
+            raise IndexError("string index out of range")
+        return SStr(z3.SubString(self.z, k, 1), 1)
+
+    def __add__(self, o):
+        if isinstance(o, SStr):
+            return SStr(z3.Concat(self.z, o.z), self.L + o.L)
+        if isinstance(o, str):
+            return SStr(z3.Concat(self.z, z3.StringVal(o)), self.L + len(o)) if o else self
+        return NotImplemented
+
+    def __radd__(self, o):
+        if isinstance(o, str):
+            return SStr(z3.Concat(z3.StringVal(o), self.z), self.L + len(o)) if o else self
+        return NotImplemented
+
+    def __repr__(self):
+        return f"SStr({self.z})"
+
+    def __str__(self):
+        return self
+
+    def __format__(self, spec):
+        return str.__str__(self)
+
+
+class SymDict:
+    """defaultdict(int)-like mapping keyed by (possibly symbolic) strings: lookups fork
+    on equality with the existing keys."""
+
+    def __init__(self):
+        self.items_ = []
+
+    def _find(self, k):
+        for i, (kk, _) in enumerate(self.items_):
+            e = (kk == k)
+            if bool(e):
+                return i
+        return None
+
+    def __getitem__(self, k):
+        i = self._find(k)
+        if i is None:
+            self.items_.append((k, 0))
+            return 0
+        return self.items_[i][1]
+
+    def __setitem__(self, k, v):
+        i = self._find(k)
+        if i is None:
+            self.items_.append((k, v))
+        else:
+            self.items_[i] = (self.items_[i][0], v)
+
+    def __contains__(self, k):
+        return self._find(k) is not None
